@@ -110,6 +110,16 @@ CHECKS = {
         "A hook invoked with a monkeytype frame on the stack is user code run by the tracer; `monkeytype` logger output is not program output.",
         "6 C03",
     ),
+    "C11": (
+        "exploration",
+        "runtime monitoring: stub-text evaluator (names provided by the stub only) + structural-equality oracle over rendered module stubs built from generated CallTraces",
+        "CallTraces with grammar types over classes spread across modules whose names are dotted/textual suffixes of one another, nested "
+        "classes, a class named like its module, _io types, TypedDicts at every container position (k>0), generator yields, are rendered "
+        "through build_module_stubs_from_traces; every annotation string is evaluated with only the stub's imports, class definitions, "
+        "builtins and the target's own classes and must equal the handed-in type structurally; every import of the stub must succeed.",
+        "vf/oracle/stubeval.py is the reference reading of stub text; no-op rewriter and one trace per function fix the handed-in type.",
+        "6 C11",
+    ),
 }
 
 PENDING = {}
